@@ -609,8 +609,14 @@ impl LazyFactorizedChainOperator {
                 })?;
         }
 
-        // Return the factorized result (not flattened)
-        Ok(chain.finish())
+        // An expansion level is only materialised when it found at least one edge. A result
+        // with fewer levels than steps therefore means that some hop had no match at all:
+        // no complete path exists, so the chain produces no rows (flattening the shorter
+        // chunk would hand out the path prefixes with the remaining columns missing).
+        let expected_levels = self.steps.len() + 1;
+        Ok(chain
+            .finish()
+            .filter(|chunk| chunk.level_count() >= expected_levels))
     }
 
     /// Returns the factorized result without flattening.
